@@ -1,5 +1,6 @@
 use vkit::engine::{drive_main, Args};
 
+pub mod c08;
 pub mod c11;
 pub mod c21;
 pub mod dbg;
@@ -11,6 +12,7 @@ pub const STACK_SIZE: usize = 8 * 1024 * 1024;
 
 pub fn dispatch(id: &str, args: &Args) -> i32 {
     match id {
+        "C08" => drive_main(&c08::C08, args),
         "C11" => drive_main(&c11::C11, args),
         "C21" => drive_main(&c21::C21, args),
         "C31" => drive_main(&c31::C31, args),
